@@ -203,7 +203,9 @@ def make(fmt, rng, variant="plain", natom=None):
         scheme = "ps"
     if variant == "fatal_pure":
         pure = True
-    obasis = make_basis(rng, natom, conv, scheme, lmax=2, pure=pure, nshell=max(natom + 1, 3))
+    # "unsorted": shells of one atom are not contiguous (augmentation / ghost functions appended later)
+    obasis = make_basis(rng, natom, conv, scheme, lmax=2, pure=pure, nshell=max(natom + 1, 3) + (2 if variant == "unsorted" else 0),
+                        sort=variant != "unsorted")
     if variant == "fatal_pure":
         from iodata.basis import Shell
         obasis.shells.append(Shell(0, [2], ["p"], [0.9], [[1.0]]))
@@ -226,22 +228,28 @@ def make(fmt, rng, variant="plain", natom=None):
     kw = dict(atnums=atnums, atcoords=atcoords, title=title, obasis=obasis, mo=mo, energy=-1.5 * natom)
     if fmt == "fchk":
         kw.update(lot="RHF", obasis_name="sto-3g")
+    # what the readers of these formats leave under `extra` (the caller's dictionary, not the writer's scratch space)
+    kw["extra"] = {"virial_ratio": 2.00123, "keywords": "GTO", "nested": {"list": [1, 2, {"deep": True}]}}
+    if mo.kind == "restricted":
+        kw["extra"]["mo_spin"] = np.full(mo.norba, 3)              # the Multiwfn spin section of a WFN file: 1 alpha, 2 beta, 3 both
+    elif mo.kind == "unrestricted":
+        kw["extra"]["mo_spin"] = np.array([1] * mo.norba + [2] * mo.norbb)
     obj = IOData(**kw)
     return obj
 
 
 VARIANTS = {
     "fchk": ["plain", "convertible", "convertible_ps", "fatal_generalized", "fatal_nonaufbau", "fatal_nonaufbau_beta", "fatal_fractional",
-             "fatal_nonaufbau_ualpha", "fatal_nonaufbau_ubeta", "fatal_fractional_ubeta_window"],
-    "molden": ["plain", "convertible", "convertible_amb", "fatal_generalized"],
-    "molekel": ["plain", "convertible", "convertible_amb", "fatal_generalized"],
-    "wfn": ["plain", "convertible", "convertible_amb", "fatal_generalized", "fatal_pure"],
-    "wfx": ["plain", "convertible", "convertible_amb", "fatal_generalized", "fatal_pure"],
+             "fatal_nonaufbau_ualpha", "fatal_nonaufbau_ubeta", "fatal_fractional_ubeta_window", "unsorted"],
+    "molden": ["plain", "unsorted", "convertible", "convertible_amb", "fatal_generalized"],
+    "molekel": ["plain", "unsorted", "convertible", "convertible_amb", "fatal_generalized"],
+    "wfn": ["plain", "unsorted", "convertible", "convertible_amb", "fatal_generalized", "fatal_pure"],
+    "wfx": ["plain", "unsorted", "convertible", "convertible_amb", "fatal_generalized", "fatal_pure"],
     "json_qcschema": ["plain", "qcinput", "qcoutput", "qcoutput_energy", "fatal_schema"],
 }
 
 
 def frame_kind(variant):
-    if variant == "plain" or variant.startswith("qc"):
+    if variant in ("plain", "unsorted") or variant.startswith("qc"):
         return "ok"
     return "convertible" if variant.startswith("convertible") else "fatal"
